@@ -293,6 +293,33 @@ def main(ctx):
     ctx.lattice("headers", hunits, one_header,
                 bounds=dict(keys=KEYS, n_values=len(VALUES), two_key_lattice="C(6,2) x 6 x 6"))
 
+    # -------------------------------------------------- (b2) header sizes
+    # user headers of every size in two windows, so that the END line (and the start of the data section) falls on
+    # every byte offset around the 4096- and 8192-byte marks: readers that scan the header in blocks or lines of a
+    # fixed buffer size break at particular offsets only
+    def one_hsize(case, rec):
+        key, n = case
+        hdr = {key: "x" * n}
+        fn = os.path.join(rec.tmp, "c01.rec")
+        roundtrip(case, rec, HD, 2, hdr, ["sfile.write(fn,d)"], ["sfile.read", "SFile[:]"], True)
+        try:
+            raw = open(fn, "rb").read()
+            pos = raw.find(b"\nEND\n")
+            if pos >= 0:
+                rec.count("end_line_offset_mod_4096=%04d" % (pos % 4096))
+        except Exception:
+            pass
+
+    wins = ctx.pick([(3850, 4150)], [(3700, 4300), (7700, 8400), (16100, 16500)])
+    hsunits = [(key, n) for key in ("pad", "padding_2") for (a, b) in wins for n in range(a, b)]
+    part_hs = ctx.lattice("header-sizes", hsunits, one_hsize, bounds=dict(windows=wins, keys=["pad", "padding_2"]))
+    if getattr(part_hs, "stats", None):
+        cov = sorted(int(k.split("=")[1]) for k in part_hs.stats.get("extra", {}) if k.startswith("end_line_offset_mod_4096="))
+        near = [r for r in range(4096 - 24, 4096)] + [r for r in range(0, 24)]
+        missing = [r for r in near if r not in cov]
+        ctx.notes.append("header-sizes: END-line offsets modulo 4096 covered: %d distinct; residues within 24 bytes of a "
+                         "block boundary not covered: %r" % (len(cov), missing))
+
     # -------------------------------------------------------- (c) field names
     def one_name(case, rec):
         name, pos, other, nrows = case
